@@ -18,7 +18,8 @@ from .. import block
 from .. import simulator
 
 
-__all__ = ['not_from_undef', 'Edge', 'Delta', 'DataEdit', 'IfOutput', 'IfNotIitialized']
+__all__ = [
+    'not_from_undef', 'Edge', 'Delta', 'DataEdit', 'IfOutput', 'IfNotIitialized', 'NotIfInitialized']
 
 _logger = logging.getLogger(__package__)
 
@@ -104,6 +105,10 @@ class IfNotIitialized:
     def __call__(self, data: Mapping) -> Mapping|None:
         assert isinstance(self._ctrl_blk, block.SBlock)     # a name should be resolved
         return None if self._ctrl_blk.is_initialized() else data
+
+
+# the name used in the documentation
+NotIfInitialized = IfNotIitialized
 
 
 class _dualmethod:
